@@ -5,6 +5,8 @@
 // PoW hash outputs (argon2id variants, hashimoto) enter the model as oracle
 // values recorded from the implementation; Keccak and the RLP pre-images are
 // computed by the model itself.
+//
+//go:debug randseednop=0
 package main
 
 import (
@@ -12,6 +14,8 @@ import (
 	"encoding/binary"
 	"fmt"
 	"math/big"
+	mrand "math/rand"
+	"os"
 	"strings"
 	"time"
 
@@ -926,6 +930,246 @@ func (e *env) blockIdentity() {
 	e.tester.SetThreads(1)
 }
 
+// ---------------------------------------------------------------- Block as an object with memoised values
+
+func versionCfg(v int) *params.ChainConfig { // a schedule under which every height has version v
+	hf := params.ForkMap{}
+	switch v {
+	case 2:
+		hf[5] = big.NewInt(0)
+	case 3:
+		hf[5], hf[8] = big.NewInt(0), big.NewInt(0)
+	case 4:
+		hf[9] = big.NewInt(0)
+	}
+	return &params.ChainConfig{ChainId: big.NewInt(9), HF: hf}
+}
+
+// blockOps: random sequences of the operations that read, fill, keep or drop a block's memoised hash / size
+// (Hash, Size, Header, SetVersion, SetVersionConfig, WithSeal, WithBody after NewBlock) on a real types.Block and on the
+// model (Consensus/BlockModel.v block_op); every observation is compared.  Direct oracle: at the end of a sequence that
+// never changed the version under a memoised hash through SetVersionConfig, Hash() is the reference hash of the current
+// header and Size() the length of the current encoding.
+func (e *env) blockOps() {
+	c := e.c
+	// Block.SetVersion / Header.Hash report misuse on stderr (with a stack trace and the raw extra data): keep it off the log
+	if null, err := os.OpenFile(os.DevNull, os.O_WRONLY, 0); err == nil {
+		old := os.Stderr
+		os.Stderr = null
+		defer func() { os.Stderr = old; null.Close() }()
+	}
+	ascii := func(h *types.Header) *types.Header {
+		h.Extra = []byte(fmt.Sprintf("%x", h.Extra))
+		if len(h.Extra) > 32 {
+			h.Extra = h.Extra[:32]
+		}
+		return h
+	}
+	nseq := c.Scale(160, 3000)
+	for it := 0; it < nseq; it++ {
+		v0 := []int{1, 2, 3, 4, 1, 2, 3, 4, 0, 5}[c.Rng.Intn(10)]
+		mkUncles := func() []*types.Header {
+			var us []*types.Header
+			for k := c.Rng.Intn(3); k > 0; k-- {
+				us = append(us, randHeader(c.Rng, big.NewInt(int64(c.Rng.Intn(1000))), 1+c.Rng.Intn(4)))
+			}
+			return us
+		}
+		us := mkUncles()
+		blk := types.NewBlock(ascii(randHeader(c.Rng, big.NewInt(int64(c.Rng.Intn(100000))), v0)), nil, us, nil)
+		enc := func(us []*types.Header) string {
+			if len(us) == 0 {
+				return "0xc0"
+			}
+			b, _ := rlp.EncodeToBytes(us)
+			return vh.Hex(b)
+		}
+		init := fmt.Sprintf("%s 0xc0 %s", shTok(blk.Header()), enc(us))
+		var ops, obs, oracle []string
+		hashed, unsafe, panicked := false, false, false
+		addOracle := func(h *types.Header, v int) {
+			if v >= 2 && v <= 4 {
+				full, _ := rlp.EncodeToBytes(h)
+				oracle = append(oracle, argonTag(v)+":"+vh.Hex(full)+"="+vh.Hex(crypto.VersionHash(byte(v), full)))
+			}
+		}
+		for k := 1 + c.Rng.Intn(9); k > 0 && !panicked; k-- {
+			switch c.Rng.Intn(9) {
+			case 0, 1, 2:
+				ops = append(ops, "H")
+				addOracle(blk.Header(), int(blk.Version()))
+				var x common.Hash
+				if pan, _ := vh.CatchPanic(func() { x = blk.Hash() }); pan {
+					obs, panicked = append(obs, "panic"), true
+				} else {
+					obs, hashed = append(obs, "h:"+x.Hex()), true
+				}
+			case 3:
+				ops = append(ops, "Z")
+				obs = append(obs, fmt.Sprintf("z:%d", int(blk.Size())))
+			case 4:
+				ops = append(ops, "G")
+				hd := blk.Header()
+				full, _ := rlp.EncodeToBytes(hd)
+				obs = append(obs, fmt.Sprintf("g:%s:0x%x", vh.Hex(full), int(hd.Version)))
+				hd.Nonce, hd.Number = types.EncodeNonce(c.Rng.Uint64()), big.NewInt(1) // a copy: must not leak into the block
+			case 5:
+				n := c.Rng.Intn(6)
+				ops = append(ops, fmt.Sprintf("V.%d", n))
+				hd := blk.Header()
+				hd.Version = params.HeaderVersion(n)
+				addOracle(hd, n)
+				var x common.Hash
+				if pan, _ := vh.CatchPanic(func() { x = blk.SetVersion(params.HeaderVersion(n)) }); pan {
+					obs, panicked = append(obs, "panic"), true
+				} else {
+					obs, hashed = append(obs, "h:"+x.Hex()), true
+				}
+			case 6:
+				n := 1 + c.Rng.Intn(4)
+				if hashed && n != int(blk.Version()) {
+					unsafe = true
+				}
+				ops = append(ops, fmt.Sprintf("C.%d", n))
+				blk.SetVersionConfig(versionCfg(n))
+				obs = append(obs, "-")
+			case 7:
+				nh := blk.Header()
+				nh.Nonce = types.EncodeNonce(c.Rng.Uint64())
+				copy(nh.MixDigest[:], c.Rng.Bytes(32))
+				if c.Rng.Chance(30) {
+					nh.Extra = c.Rng.Bytes(c.Rng.Intn(17))
+					ascii(nh)
+				}
+				if c.Rng.Chance(20) {
+					nh.Version = params.HeaderVersion(1 + c.Rng.Intn(4))
+				}
+				ops = append(ops, "S."+shTok(nh))
+				blk = blk.WithSeal(nh)
+				obs, hashed = append(obs, "-"), false
+			case 8:
+				us = mkUncles()
+				ops = append(ops, "B.0xc0."+enc(us))
+				blk = blk.WithBody(nil, us)
+				obs, hashed = append(obs, "-"), false
+			}
+		}
+		cas := fmt.Sprintf("blockops %s %s %s", init, strings.Join(ops, "/"), oracleTok(oracle))
+		key := ""
+		if !panicked && hashed {
+			key = blk.Hash().Hex()
+		}
+		c.Eval(fmt.Sprintf("block-ops/v%d/len%d", v0, len(ops)), key)
+		c.Correspond("Block{Hash,Size,Header,SetVersion,SetVersionConfig,WithSeal,WithBody}~block_op", cas, strings.Join(obs, "/"), e.m.Ask(cas))
+		if unsafe {
+			c.Count("block-ops/setversionconfig-under-memoised-hash")
+		}
+		if v := int(blk.Version()); !panicked && !unsafe && v >= 1 && v <= 4 {
+			full, _ := rlp.EncodeToBytes(blk)
+			if blk.Hash() != refHeaderHash(blk.Header()) || int(blk.Size()) != len(full) {
+				c.Violate("block-cache-incoherent/"+strings.Join(ops, "/"), "after a sequence of block operations Hash() / Size() is not that of the block's current header / encoding",
+					map[string]string{"initial": init, "ops": strings.Join(ops, "/"), "hash": blk.Hash().Hex(), "reference_hash_of_current_header": refHeaderHash(blk.Header()).Hex(),
+						"size": fmt.Sprint(int(blk.Size())), "encoding_length": fmt.Sprint(len(full))})
+			}
+		}
+	}
+}
+
+// ---------------------------------------------------------------- Seal with several search threads
+
+// sealThreads: engine.Seal with 1..4 threads.  Seal draws every thread's start nonce from the global math/rand source; the
+// harness seeds that source (go:debug randseednop=0) and so knows the start nonces.  Reference: the first solution of
+// every thread.  Direct oracle: the block Seal returns carries the first solution of ONE of its threads, passes VerifySeal
+// and the reference, and identifies as its header.  Correspondence: the model (SealerModel.v seal_threads) run on the
+// interleaving in which that thread gets there first — the others see the closed abort — returns the same seal, once.
+func (e *env) sealThreads() {
+	c := e.c
+	for it, n := 0, c.Scale(48, 600); it < n; it++ {
+		threads := 1 + it%4
+		v := []int{2, 3, 4, 2, 3, 4, 1}[it%7]
+		cfg := versionCfg(v)
+		h := randHeader(c.Rng, big.NewInt(int64(1+c.Rng.Intn(20000))), v)
+		h.Difficulty = big.NewInt(int64(5 + c.Rng.Intn(10)))
+		h.Nonce, h.MixDigest = types.BlockNonce{}, common.Hash{}
+		blk := types.NewBlockWithHeader(h)
+		h = blk.Header()
+		eng := e.engineFor(v)
+		eng.SetThreads(threads)
+		seed := int64(c.Rng.Uint64() >> 1)
+		mrand.Seed(seed)
+		starts := make([]uint64, threads)
+		for i := range starts {
+			starts[i] = uint64(mrand.Int63())
+		}
+		mrand.Seed(seed)
+		res, err := eng.Seal(cfgOnly{cfg}, blk, nil)
+		if err != nil || res == nil {
+			c.Violate("seal-returned-nothing/threads", "Seal returned no block", map[string]string{"err": fmt.Sprint(err), "threads": fmt.Sprint(threads)})
+			continue
+		}
+		mh := res.Header()
+		got := mh.Nonce.Uint64()
+		// reference: first solution of every thread
+		hnn := refSealFree(h)
+		winner, attempts := -1, uint64(0)
+		var firsts []string
+		for i, st := range starts {
+			for k := uint64(0); k < 4000; k++ {
+				if _, r := e.refResult(h, v, hnn, st+k); meets(r, h.Difficulty) {
+					firsts = append(firsts, fmt.Sprintf("0x%x", st+k))
+					if st+k == got && winner < 0 {
+						winner, attempts = i, k+1
+					}
+					break
+				}
+			}
+		}
+		rep := map[string]string{"threads": fmt.Sprint(threads), "version": fmt.Sprint(v), "header": shTok(h), "rand_seed": fmt.Sprint(seed),
+			"start_nonces": fmt.Sprint(starts), "first_solutions": strings.Join(firsts, ","), "returned_nonce": fmt.Sprintf("0x%x", got)}
+		key := ""
+		if winner >= 0 {
+			key = fmt.Sprintf("%d/%s", threads, mh.Hash().Hex())
+		}
+		c.Eval(fmt.Sprintf("seal-threads/%d/v%d", threads, v), key)
+		if winner < 0 {
+			c.Violate(fmt.Sprintf("seal-threads-result-not-a-first-solution/threads=%d/v%d/nonce=0x%x/%s", threads, v, got, shTok(h)),
+				"the nonce Seal returns is not the first solution of any of its search threads (start nonces known from the seeded math/rand source)", rep)
+			continue
+		}
+		e.checkSealedBlock(fmt.Sprintf("Seal/seeded/threads=%d", threads), "none", cfg, res, eng, true)
+		// the model on the interleaving in which the winner runs to its solution and is received; then everybody else steps once
+		var oracle, events []string
+		if v == 3 {
+			oracle = append(oracle, "B:"+vh.Hex(rlpNoNonce(h))+"="+vh.Hex(hnn))
+		}
+		for k := uint64(0); k < attempts; k++ {
+			nn := starts[winner] + k
+			d, r := e.refResult(h, v, hnn, nn)
+			if v == 1 {
+				oracle = append(oracle, fmt.Sprintf("H:0x%x:%s:0x%x=%s:%s", h.Number.Uint64(), vh.Hex(hnn), nn, vh.Hex(d), vh.Hex(r)))
+			} else {
+				oracle = append(oracle, argonTag(v)+":"+vh.Hex(seedOf(hnn, nn))+"="+vh.Hex(r))
+			}
+			events = append(events, fmt.Sprintf("s%d", winner))
+		}
+		events = append(events, fmt.Sprintf("s%d", winner)) // the offer is received
+		for i := range starts {
+			if i != winner {
+				events = append(events, fmt.Sprintf("s%d", i))
+			}
+		}
+		st := make([]string, len(starts))
+		for i, x := range starts {
+			st[i] = fmt.Sprint(x)
+		}
+		cas := fmt.Sprintf("sealer %d %s %s %s %s", v, shTok(h), strings.Join(st, ","), strings.Join(events, ","), oracleTok(oracle))
+		obs := fmt.Sprintf("found 0x%x %s 0x%x delivered=1 threads=%s", got, mh.MixDigest.Hex(), int(mh.Version), strings.Repeat("D", threads))
+		c.Correspond("Seal(1..4 threads)~seal_threads", cas, obs, e.m.Ask(cas))
+	}
+	e.normal.SetThreads(1)
+	e.tester.SetThreads(1)
+}
+
 // minerPaths: the two ways a header reaches Seal / VerifySeal from the node's own miner, driven through the real
 // agents of opt/miner with a block assembled the way worker.commitNewWork + Engine.Finalize assemble it
 // (header.Version = GetBlockVersion(number), types.NewBlock copies it):
@@ -1055,6 +1299,8 @@ func main() {
 	e.startNonces()
 	e.minerPaths()
 	e.blockIdentity()
+	e.blockOps()
+	e.sealThreads()
 	c.Assume("ethash (version 1) is exercised in ModeTest (32 KiB dataset); hashimotoLight = hashimotoFull is taken as a property of the primitive")
 	c.Assume("argon2id / hashimoto outputs enter the model as oracle values recorded from the implementation; Keccak-256 and the RLP pre-images are computed by the model")
 	c.Finish()
